@@ -791,7 +791,7 @@ def mismatch_concurrent(case, ctx):
 
   def hook():
     entered.set()
-    if not release.wait(20):
+    if not release.wait(120):
       box['timeout'] = True
 
   def run(fn, key):
@@ -805,24 +805,24 @@ def mismatch_concurrent(case, ctx):
     if case['who_fails'] == 'main':
       t = _threading.Thread(target=run, args=(restore_a, 'a'), daemon=True)
       t.start()
-      if not entered.wait(20):
+      if not entered.wait(120):
         raise RuntimeError('harness: holder thread never reached its hook')
       run(restore_b, 'b')
       release.set()
-      t.join(20)
+      t.join(300)
     else:
       # the main thread is held inside restore A, the worker fails meanwhile
       done = _threading.Event()
 
       def worker():
-        entered.wait(20)
+        entered.wait(120)
         run(restore_b, 'b')
         done.set()
         release.set()
       t = _threading.Thread(target=worker, daemon=True)
       t.start()
       run(restore_a, 'a')
-      t.join(20)
+      t.join(300)
   finally:
     _GATE_HOOK['fn'] = None
     release.set()
